@@ -581,7 +581,7 @@ const (
 
 var qNames = []string{"CEA-ok", "CEA-bad", "ReqA(name)", "ReqB(index)", "Answer", "Unregistered", "DWR", "CER-from-peer", "CER-from-peer(app 4)"}
 
-func runC10Client(c *ev.Case, ctx *lib.Ctx, seq []int, allByIdx bool) {
+func runC10Client(c *ev.Case, ctx *lib.Ctx, seq []int, allByIdx bool, peerStopsReading bool) {
 	settings := &sm.Settings{OriginHost: "cli.local", OriginRealm: "realm.local", VendorID: 13, ProductName: "verif",
 		HostIPAddresses: []datatype.Address{datatype.Address([]byte{192, 0, 2, 9})}}
 	machine := sm.New(settings)
@@ -665,6 +665,16 @@ func runC10Client(c *ev.Case, ctx *lib.Ctx, seq []int, allByIdx bool) {
 		}
 		mc.Feed(stream)
 	}
+	if peerStopsReading {
+		// the peer takes the CER and reads nothing more: whatever the client writes after it
+		// (a DWA, a CEA to the peer's own CER) blocks until the client gives the connection up
+		mc.Script = func(seq int, b []byte) memnet.Outcome {
+			if seq == 0 {
+				return memnet.Outcome{Accept: -1, StallAt: -1}
+			}
+			return memnet.Outcome{Accept: -1, StallAt: 0, UntilClosed: true}
+		}
+	}
 	var conn diam.Conn
 	var err error
 	done := make(chan struct{})
@@ -682,7 +692,7 @@ func runC10Client(c *ev.Case, ctx *lib.Ctx, seq []int, allByIdx bool) {
 			}
 			s += qNames[k]
 		}
-		return fmt.Sprintf("peer replies to the CER with [%s] in one segment, catch-all by index=%v", s, allByIdx)
+		return fmt.Sprintf("peer replies to the CER with [%s] in one segment, catch-all by index=%v, peer stops reading after the CER=%v", s, allByIdx, peerStopsReading)
 	}
 	sig := func(op string) ev.Sig { return ev.Sig{"op": op, "role": "client"} }
 	defer func() {
@@ -812,7 +822,28 @@ func TestC10(t *testing.T) {
 		seq := cseqs[c.I]
 		c.Class("client/len=%d/first=%s", len(seq), qNames[seq[0]])
 		c10Dress = c.I/4 + c.I%4*7
-		run(c, func() { runC10Client(c, ctx, seq, c.I%2 == 0) })
+		run(c, func() { runC10Client(c, ctx, seq, c.I%2 == 0, false) })
 	})
 	rec.Exhaustive("client-exhaustive")
+	// the same replies from a peer that stops reading once it has the CER (sequences without a
+	// success CEA: the dial fails - by the refusal, or by the time-out while the reader is stuck
+	// in a write - and what is still buffered then belongs to a connection that never completed
+	// the exchange)
+	var stuck [][]int
+	for _, q := range cseqs {
+		ok := false
+		for _, k := range q {
+			ok = ok || k == qCEAok
+		}
+		if !ok {
+			stuck = append(stuck, q)
+		}
+	}
+	rec.Suite("client-peer-stops-reading", len(stuck), func(c *ev.Case) {
+		seq := stuck[c.I]
+		c.Class("client-peer-stops-reading/len=%d/first=%s", len(seq), qNames[seq[0]])
+		c10Dress = c.I/4 + c.I%4*7
+		run(c, func() { runC10Client(c, ctx, seq, c.I%2 == 0, true) })
+	})
+	rec.Exhaustive("client-peer-stops-reading")
 }
